@@ -60,8 +60,8 @@ impl Property for C10 {
             knobs: Knobs { max_nodes: 24, max_ops: 6, variant, ..Default::default() },
         };
         match tier {
-            Tier::Quick => vec![mk("names", 300_000, 0), mk("repair", 100_000, 1)],
-            Tier::Thorough => vec![mk("names", 1_000_000, 0), mk("repair", 400_000, 1)],
+            Tier::Quick => vec![mk("names", 250_000, 0), mk("repair", 100_000, 1), mk("names-odd", 100_000, 2)],
+            Tier::Thorough => vec![mk("names", 1_000_000, 0), mk("repair", 400_000, 1), mk("names-odd", 600_000, 2)],
         }
     }
 
@@ -77,8 +77,52 @@ impl Property for C10 {
             1 => gen::gen_fragment(src, &o),
             _ => gen::gen_element_tree(src, &o),
         };
+        if ctx.knobs.variant == 2 {
+            // plan names-odd: namespace names that need escaping where they are written (double quote,
+            // apostrophe, TAB, LF, '<', '&'), and explicit declarations of the xml prefix
+            const ODD: &[&str] = &["urn:q\"t'\tz", "urn:l\nf&<g>", "urn:s p", "http://x/?a=1&b=\"2\""];
+            let from = ["urn:a", "urn:b", "urn:c"][src.choice(3)];
+            let to = ODD[src.choice(ODD.len())];
+            fn replace_uri(n: &mut ANode, from: &str, to: &str) {
+                if let ANode::Element(e) = n {
+                    if e.name.ns == from {
+                        e.name.ns = to.to_string();
+                    }
+                    for (q, _) in e.attrs.iter_mut() {
+                        if q.ns == from {
+                            q.ns = to.to_string();
+                        }
+                    }
+                    for (_, u) in e.decls.iter_mut() {
+                        if u == from {
+                            *u = to.to_string();
+                        }
+                    }
+                }
+                if let Some(ch) = n.children_mut() {
+                    for c in ch.iter_mut() {
+                        replace_uri(c, from, to);
+                    }
+                }
+            }
+            replace_uri(&mut doc, from, to);
+            fn declare_xml(n: &mut ANode, src: &mut Src) {
+                if let ANode::Element(e) = n {
+                    if src.ratio(1, 4) && !e.decls.iter().any(|(p, _)| p == "xml") {
+                        let at = src.choice(e.decls.len() + 1);
+                        e.decls.insert(at, ("xml".to_string(), crate::model::XML_NS.to_string()));
+                    }
+                }
+                if let Some(ch) = n.children_mut() {
+                    for c in ch.iter_mut() {
+                        declare_xml(c, src);
+                    }
+                }
+            }
+            declare_xml(&mut doc, src);
+        }
         let mut xot = Xot::new();
-        if ctx.knobs.variant == 0 {
+        if ctx.knobs.variant == 0 || ctx.knobs.variant == 2 {
             let mut hs = vec![];
             let root = match bridge::build(&mut xot, &doc, &mut hs) {
                 Ok(r) => r,
